@@ -28,13 +28,17 @@ func GenKey() *rapid.Generator[[]byte] {
 			tail := rapid.SliceOfN(rapid.SampledFrom(keyAlphabet), 0, 2).Draw(t, "tail")
 			return append(k, tail...)
 		}
-		return rapid.SliceOfN(rapid.SampledFrom(keyAlphabet), 0, 4).Draw(t, "key")
+		n := rapid.SampledFrom([]int{0, 1, 1, 2, 2, 2, 3, 3, 4}).Draw(t, "klen")
+		return rapid.SliceOfN(rapid.SampledFrom(keyAlphabet), n, n).Draw(t, "key")
 	})
 }
 
 // GenShortKey draws only short keys (0-3 bytes) over the small alphabet.
 func GenShortKey() *rapid.Generator[[]byte] {
-	return rapid.SliceOfN(rapid.SampledFrom(keyAlphabet), 0, 3)
+	return rapid.Custom(func(t *rapid.T) []byte {
+		n := rapid.SampledFrom([]int{0, 1, 1, 2, 2, 2, 3}).Draw(t, "klen")
+		return rapid.SliceOfN(rapid.SampledFrom(keyAlphabet), n, n).Draw(t, "key")
+	})
 }
 
 // GenValue draws a value with a length from ValueLens (sometimes random) and
